@@ -50,7 +50,7 @@ class C17(core.Check):
     PROPS = 'props/C17.v'
     MODEL_IMPORTS = ['gen.Gen_tokens', 'model.Tok', 'model.Lister', 'model.Lines', 'model.C17_glue']
     QUICK_CASES = 1500
-    THOROUGH_CASES = 12000
+    THOROUGH_CASES = 8000
     ALLOWED_AXIOMS = []
     TRUSTED = ['hand models model/Tok.v (Tokeniser.tokenise_line + the CodeStream readers it uses) and '
                'model/Lister.v (Lister.detokenise_line) tied by correspondence on generated text lines, token '
@@ -476,12 +476,11 @@ class C17(core.Check):
         return {k: v for k, v in d.items() if k not in ('canonical_text', 'text')}
 
     def shrink_candidates(self, case):
-        """keep cases self-consistent: item lists lose items, byte strings lose bytes, rendered grammar text
-        (itext) is not shrunk."""
-        if case['k'] == 'itext':
+        """grammar cases are not shrunk: a sub-list of a canonical item list is in general not canonical, so a
+        shrunk case would no longer be a witness against the property; byte-string cases lose bytes."""
+        if case['k'] in ('items', 'items_any', 'itext'):
             return
-        key = 'items' if case['k'] in ('items', 'items_any') else 'b'
-        v = case[key]
+        v = case['b']
         n = len(v)
         cuts = []
         if n > 1:
@@ -493,7 +492,7 @@ class C17(core.Check):
             cuts += [v[:i] + v[i + step:] for i in range(0, n, step)]
         for c in cuts:
             d = dict(case)
-            d[key] = c
+            d['b'] = c
             yield d
 
     def oracle(self, case, out):
